@@ -88,7 +88,7 @@ def setValOfJson (st : St) (j : Json) : Except String SetVal := do
 
 def itemOfJson (st : St) (j : Json) : Except String DItem := do
   match j.getObjVal? "lit" with
-  | .ok v => pure (.lit (← natField v "ncols") (← rowsOfJson (← field v "rows")))
+  | .ok v => pure (.lit (← natField v "ncols") (← rowsOfJson (← field v "rows")) ((boolField v "int").toOption.getD false))
   | .error _ =>
     match j.getObjVal? "lit1d" with
     | .ok _ => pure .lit1d
@@ -100,22 +100,38 @@ def errName : Err → String
 
 def floorDiv (x c : Rat) : Rat := ((x / c).floor : Int)
 
-def fopOfJson (j : Json) : Except String (Rat → Rat) := do
-  let k ← strField j "k"
-  let c ← ratOfJson (← field j "c")
+/-- `x ** y` for integer-valued `y` (the harness sends no other exponents) -/
+def powQ (x y : Rat) : Rat :=
+  if y.num ≥ 0 then x ^ y.num.toNat else (x ^ (-y.num).toNat)⁻¹
+
+def binOfName (k : String) : Except String (Rat → Rat → Rat) :=
   match k with
-  | "add" => pure (· + c)
-  | "sub" => pure (· - c)
-  | "mul" => pure (· * c)
-  | "div" => pure (· / c)
-  | "floordiv" => pure (floorDiv · c)
-  | "mod" => pure fun x => x - c * floorDiv x c
+  | "add" => pure (· + ·)
+  | "sub" => pure (· - ·)
+  | "mul" => pure (· * ·)
+  | "div" => pure (· / ·)
+  | "floordiv" => pure floorDiv
+  | "mod" => pure fun x c => x - c * floorDiv x c
+  | "pow" => pure powQ
   | _ => throw s!"fop {k}"
+
+def fopOfJson (j : Json) : Except String (Rat → Rat) := do
+  let g ← binOfName (← strField j "k")
+  let c ← ratOfJson (← field j "c")
+  pure (g · c)
+
+def rhsOfJson (j : Json) : Except String Rhs := do
+  match j.getObjVal? "c" with
+  | .ok c => pure (.scalar (← ratOfJson c))
+  | .error _ =>
+    match j.getObjVal? "arr" with
+    | .ok a => pure (.array (← (← a.getArr?).toList.mapM ratOfJson))
+    | .error _ => pure (.field (← natField j "w") (← strField j "wf"))
 
 def opOfJson (st : St) (j : Json) : Except String Op := do
   let op ← strField j "op"
   match op with
-  | "alloc" => pure (.alloc (← natField j "ncols") (← rowsOfJson (← field j "rows")))
+  | "alloc" => pure (.alloc (← natField j "ncols") (← rowsOfJson (← field j "rows")) ((boolField j "int").toOption.getD false))
   | "from_shape" =>
       pure (.fromShape (← intList (← field j "shape")) (← optIntOfJson (fieldD j "num_fields" .null))
         (← optStrListOfJson (fieldD j "fields" .null)) (← optStrListOfJson (fieldD j "units" .null)))
@@ -128,6 +144,10 @@ def opOfJson (st : St) (j : Json) : Except String Op := do
   | "getitem" => pure (.getItem (← natField j "v") (← idxOfJson j))
   | "setitem" => pure (.setItem (← natField j "v") (← idxOfJson j) (← setValOfJson st (← field j "val")))
   | "field_op" => pure (.fieldOp (← natField j "v") (← strField j "f") (← fopOfJson j))
+  | "field_op_gen" =>
+      pure (.fieldOpGen (← natField j "v") (← strField j "f") (← binOfName (← strField j "k"))
+        ((boolField j "neg_int_pow").toOption.getD false) (← rhsOfJson (← field j "rhs")))
+  | "field_get" => pure (.fieldGet (← natField j "v") (← strField j "f") (← idxOfJson j))
   | "set_flattened" =>
       let vals : FlatVal ← match j.getObjVal? "vals" with
         | .ok (.arr a) => do pure (.oneD (← a.toList.mapM ratOfJson))
@@ -162,11 +182,18 @@ def obs (st : St) : Json :=
         ("meta", Json.num (JsonNumber.fromNat v.mref)),
         ("flat", Json.arr ((List.range v.fields.length).map fun j =>
             Json.arr ((flattenField s.heap v.cells j).map ratToJson).toArray).toArray),
-        ("all", rowsToJson (flattenAll s.heap v.cells))]).toArray),
+        ("all", rowsToJson (flattenAll s.heap v.cells)),
+        ("flat_int", Json.bool (flattenIsInt s.heap v.cells))]).toArray),
     ("heap", Json.arr (reach.filterMap fun r => (s.heap[r]?).map fun a =>
-        Json.arr #[Json.num (JsonNumber.fromNat r), Json.num (JsonNumber.fromNat a.ncols), rowsToJson a.rows]).toArray),
+        Json.arr #[Json.num (JsonNumber.fromNat r), Json.num (JsonNumber.fromNat a.ncols), rowsToJson a.rows,
+          Json.bool a.isInt]).toArray),
     ("metas", Json.arr (s.metas.map fun d =>
         Json.arr (d.map fun (k, x) => Json.arr #[Json.str k, Json.num (JsonNumber.fromInt x)]).toArray).toArray)]
+
+def npJson : NpVal → Json
+  | .arr2 c rows t => Json.mkObj [("a2", rowsToJson rows), ("ncols", Json.num (JsonNumber.fromNat c)), ("int", Json.bool t)]
+  | .arr1 xs t => Json.mkObj [("a1", Json.arr (xs.map ratToJson).toArray), ("int", Json.bool t)]
+  | .scalar x t => Json.mkObj [("sc", ratToJson x), ("int", Json.bool t)]
 
 def resJson : Res → Json
   | .none => okJson Json.null
@@ -174,6 +201,7 @@ def resJson : Res → Json
   | .newRef _ => okJson (Json.mkObj [("arr", Json.bool true)])
   | .cell c => okJson (Json.mkObj [("cell", Json.bool c.isSome)])
   | .cells cs => okJson (Json.mkObj [("cells", Json.arr (cs.map fun c => Json.bool c.isSome).toArray)])
+  | .np v => okJson (Json.mkObj [("np", npJson v)])
   | .err e => errJson (errName e)
 
 /-- the caller keeps every array it is handed -/
